@@ -675,8 +675,14 @@ func (d *dsys) checkWritten(full bool, want []shadow.Want) string {
 			if (want[y*W+x].Wide == 2 || d.prevWant[y*W+x].Wide == 2) && allowed(x+1, y) {
 				continue
 			}
-			// neighbour used to paint the bottom-right corner (and the rune covering it)
-			if d.cfg.brTrick && y == H-1 && x >= W-3 && allowed(W-1, H-1) {
+			// neighbour used to paint the bottom-right corner (and the rune covering it); when
+			// the corner is the second half of a wide rune the neighbour is the cell left of
+			// that rune
+			lo := W - 3
+			if want[(H-1)*W+W-1].Tail || d.prevWant[(H-1)*W+W-1].Tail {
+				lo = W - 4
+			}
+			if d.cfg.brTrick && y == H-1 && x >= lo && allowed(W-1, H-1) {
 				continue
 			}
 			return fmt.Sprintf("unchanged cell written: (%d,%d) was rewritten by Show() although neither it nor a wide neighbour changed since the previous Show()", x, y)
